@@ -107,6 +107,14 @@ def grammar_cases(ctx, cat, n_lines, n_progs):
             'ON TIMER(1) GOSUB 1000:TIMER ON', 'KEY(1) ON', 'CHAIN "PROG.BAS"', 'COMMON A,B$', 'DEF FNB(X)=FNB(X)', 'DEF FNC=FNC+1', 'DEF FND=FNE:DEF FNE=FND',
             'PRINT FNB(1)', 'PRINT FNC', 'A=FND', 'GOTO 20', 'NEW', 'CONT',
             'DELETE 20-40', 'RENUM', 'RENUM 100,40', 'LIST', 'EDIT 10', 'AUTO', 'MERGE "ASC.BAS"', 'LOAD "PROG.BAS",R', 'SAVE "Q",A']
+    # scripted programs run in every tier and with every seed: self-referencing DEF FN in all its forms (with and without
+    # parameters, directly and through a cycle), called from the program, under ON ERROR, and from direct mode after the run
+    for body in (['10 DEF FNC=FNC+1', '20 PRINT FNC'], ['10 DEF FND=FNE:DEF FNE=FND', '20 A=FND'],
+                 ['10 DEF FNB(X)=FNB(X)', '20 PRINT FNB(1)'], ['10 DEF FNA(X)=FNB(X)+1:DEF FNB(Y)=FNA(Y)*2', '20 PRINT FNA(2)'],
+                 ['10 ON ERROR GOTO 1000', '20 DEF FNC=FNC+1', '30 PRINT FNC', '40 PRINT "after"'],
+                 ['10 DEF FNS$=FNS$+"a"', '20 A$=FNS$'], ['10 DEF FNC=FNC+1', '20 END', '30 PRINT FNC']):
+        for cmd in ('RUN', 'RUN:PRINT FNC:PRINT FND', 'GOTO 10'):
+            cases.append({'arm': 'P', 'sub': 'scripted-program', 'lines': body + ['1000 RESUME NEXT'], 'cmd': cmd})
     for _ in range(n_progs):
         nl = rng.randint(2, 9)
         lines = []
